@@ -63,6 +63,7 @@ def assert_messages(text):
 
 
 def sanitize(args):
+    args = re.sub(r'\[[^\]]*\]', '', args)  # token-list arguments (used as repetition counters) do not name the harness
     return re.sub(r'[^a-z0-9]+', '_', args.lower()).strip('_')
 
 
@@ -269,6 +270,7 @@ class KaniRun:
         self.solver_s = 0.0
         self.build_s = 0.0
         self.scratch_repo = None
+        self.const_eval_error = None
 
 
 def run_kani(prop, tier, seed=0):
@@ -315,6 +317,11 @@ def run_kani(prop, tier, seed=0):
             errs = [l for l in (out + '\n' + err).splitlines() if l.startswith('error') or l.lstrip().startswith('-->')]
             tail = '\n'.join(errs[:12]) if errs else '\n'.join((err or out).splitlines()[-25:])
             kind = 'compile error in injected harness or crate' if errs else 'no harness results'
+            if 'error[E0080]' in out + err and any(files_meta[h.file].get('constitems') == '1' for h in hs):
+                # rustc's const evaluator rejected a const item of the generated C18 family: that IS the property failing
+                m = re.search(r'error\[E0080\].*?(?=\n(?:error|warning)|\Z)', out + err, re.S)
+                kr.const_eval_error = (m.group(0) if m else tail)[:4000]
+                continue
             kr.undecided.append('%s (features=%s): %s' % (kind, features, tail))
             continue
         for h in hs:
